@@ -109,6 +109,10 @@ class Link(object):
         self.closes += 1
         self.log.ev('close', actor)
         self.connected = False
+        if getattr(self, 'fail_next_close', False):
+            self.fail_next_close = False
+            self.faults_fired.append((-self.closes, 'closefail', 'c'))
+            raise OSError(5, 'close failed (injected)')
         if self.closes in (self.cfg.get('close_faults') or ()):
             self.faults_fired.append((-self.closes, 'closefail', 'c'))
             raise OSError(5, 'close failed (injected)')
